@@ -614,10 +614,10 @@ def update_wrapper(wrapper, func, injected=None, expected=None, build_from=None,
 
     execdict = {call_name: wrapper, '_func': func}
     fully_wrapped = fb.get_func(execdict, with_dict=update_dict)
-    if getattr(func, '__doc__', None) is None:
-        fully_wrapped.__doc__ = None  # FunctionBuilder turns a missing docstring into ''
     # a __signature__ copied over from func.__dict__ would hide the signature just built
     fully_wrapped.__dict__.pop('__signature__', None)
+    if getattr(func, '__doc__', None) is None:
+        fully_wrapped.__doc__ = None  # FunctionBuilder turns a missing docstring into ''
 
     if hide_wrapped and hasattr(fully_wrapped, '__wrapped__'):
         del fully_wrapped.__dict__['__wrapped__']
